@@ -21,6 +21,7 @@ type sink struct {
 	sizes  []int // sizes of the Write calls of the current API call
 	n      int   // Write calls so far
 	failAt int   // 1-based index of the Write call that fails; 0 = never
+	mode   byte  // how it fails: 'z' (0, err)  'h' (len/2, err) after taking half  'f' (len, err) after taking everything
 }
 
 var errSink = errors.New("sink failure")
@@ -28,6 +29,14 @@ var errSink = errors.New("sink failure")
 func (s *sink) Write(p []byte) (int, error) {
 	s.n++
 	if s.failAt > 0 && s.n >= s.failAt {
+		switch s.mode {
+		case 'h':
+			s.buf.Write(p[:len(p)/2])
+			return len(p) / 2, errSink
+		case 'f':
+			s.buf.Write(p)
+			return len(p), errSink
+		}
 		return 0, errSink
 	}
 	s.sizes = append(s.sizes, len(p))
@@ -52,6 +61,7 @@ type source struct {
 	pos    int64
 	calls  int   // Read+Seek calls so far
 	failAt int   // 1-based index of the failing call; 0 = never
+	failWithData bool // the failing Read delivers bytes together with its error
 	frag   int   // >0: at most frag bytes per Read; <0: seeded random short reads
 	eofTogether bool // return io.EOF together with the last bytes
 	rng    uint64
@@ -72,6 +82,12 @@ func (s *source) Read(p []byte) (int, error) {
 	s.calls++
 	s.trace = append(s.trace, s.phase)
 	if s.failAt > 0 && s.calls == s.failAt {
+		if s.failWithData && len(p) > 0 && s.pos < int64(len(s.data)) {
+			// legal for io.Reader: n > 0 bytes AND a non-EOF error from the same call
+			n := copy(p, s.data[s.pos:])
+			s.pos += int64(n)
+			return n, errSource
+		}
 		return 0, errSource
 	}
 	if s.pos >= int64(len(s.data)) {
@@ -248,7 +264,12 @@ func init() {
 		max, codec := atoi(a[1]), atoi(a[2])
 		s := &sink{}
 		if len(a) > 4 {
-			s.failAt = atoi(a[4])
+			// failAt = <k> or <k>:<mode>
+			ks := strings.SplitN(a[4], ":", 2)
+			s.failAt = atoi(ks[0])
+			if len(ks) == 2 && ks[1] != "" {
+				s.mode = ks[1][0]
+			}
 		}
 		ns := nodesOf(z)
 		var calls []string
@@ -301,6 +322,9 @@ func init() {
 				src.rng ^= uint64(atoi(o[5:])) * 0x9e3779b97f4a7c15
 			case o == "eof":
 				src.eofTogether = true
+			case strings.HasPrefix(o, "faild="):
+				src.failAt = atoi(o[6:])
+				src.failWithData = true
 			case strings.HasPrefix(o, "fail="):
 				src.failAt = atoi(o[5:])
 			case o == "trace":
